@@ -2,7 +2,7 @@
 # scripts/confirm_seed.sh <property> <A|B> : confirm a seeded change in a scratch worktree:
 #   demo passes without the change, fails with it; the repository suite still passes the stable baseline with it.
 P="$1"; N="$2"
-SRC=/tmp/seed-out/$P
+SRC=${SEED_SRC:-/tmp/seed-out}/$P
 WT=/tmp/wt-confirm-$P$N
 git -C /repo worktree add -q --detach $WT HEAD || exit 2
 cd $WT
